@@ -2,7 +2,7 @@
 from common import case
 
 ID = "C03"
-MAKE_TARGETS = ["Props/C03.v", "Props/SmallCurvesAll.v", "GenProps/CurveGen.v"]
+MAKE_TARGETS = ["Props/C03.v", "Props/SmallCurvesAll.v", "Props/Secp256k1.v", "GenProps/CurveGen.v"]
 GEN_TABLES = ["CurveGen"]
 CASE_TIMEOUT = 60.0
 FILLER = {"secp-mul-rand"}
